@@ -25,7 +25,7 @@ def run(ctx):
     # keeps the NSTART slot, a non-atomic pop must each break the property they exist for
     design = [("MC_Cancel_calls2_dg.cfg", None), ("MC_Cancel_calls2_st.cfg", None), ("MC_Cancel_calls2_srv.cfg", None),
               ("MC_Cancel_close_rd.cfg", None), ("MC_Cancel_close_sh.cfg", None),
-              ("MC_Cancel_mut_pinned.cfg", "Ends"), ("MC_Cancel_mut_pop.cfg", "OnceEach")]
+              ("MC_Cancel_mut_pinned.cfg", "Ends"), ("MC_Cancel_mut_pop.cfg", "OnceEach"), ("MC_Cancel_mut_park.cfg", "CloseCompletes")]
     if thorough:
         design += [("MC_Cancel_calls_dg.cfg", None), ("MC_Cancel_calls_st.cfg", None), ("MC_Cancel_calls_srv.cfg", None),
                    ("MC_Cancel_mut_leak.cfg", "Ends")]
@@ -61,6 +61,11 @@ def run(ctx):
     ctx.add("states", dist)
     ctx.add("transitions", gen)
     ctx.add("traces_validated_against_impl", len(allrecs))
+    floods = [s for s in srv if "flood" in s]
+    srv = [s for s in srv if "flood" not in s]
+    ctx.cov["close_with_full_queue_scenarios"] = len(floods)
+    if floods and sum(1 for f in floods if f["busy"]) * 10 < len(floods) * 9:
+        raise vf.Machinery("flood scenarios not steered: %s" % floods[:2])
     reached = [r for r in recs if r["reached"]]
     ctx.cov["interruptions_run"] = len(recs)
     ctx.cov["interruptions_steered_to_the_point"] = len(reached)
@@ -92,7 +97,9 @@ def run(ctx):
             continue
         groups = {}
         for r in rs:
-            if "op" in r:
+            if "flood" in r:
+                sig = {"transport": r["transport"], "flood": r["flood"]}
+            elif "op" in r:
                 sig = {"transport": r["transport"], "op": r["op"], "pt": r["pt"], "kind": r["kind"]}
             else:
                 sig = {"transport": r["transport"], "order": r["order"]}
@@ -116,7 +123,7 @@ def run(ctx):
         r["onclose"] = [1, 2, 1]
         return r
     vf.negative_control(ctx, "cancel", "RecC09", "RecC09.cfg", allrecs, mutate2)
-    ctx.sample({"op_record": reached[len(reached) // 2], "server_record": srv[-1]})
+    ctx.sample({"op_record": reached[len(reached) // 2], "server_record": srv[-1], "flood_record": floods[-1] if floods else None})
     ctx.assumptions += ["'bounded delay' is a 2 s watchdog per call (the calls return within milliseconds on the unchanged tree)",
                         "client operations run on in-memory transports that refuse writes under a finished context exactly as net.UDPConn / net.Conn do; server stop and discovery run on real loopback sockets",
                         "dtls/tls clients are covered by the server-stop scenarios only (their blocking calls are the udp/tcp client code)"]
